@@ -87,6 +87,9 @@ class C18(BtProp):
                 shared = rng.random() < 0.35      # all conditions test ONE variable against different values
                 if shared:
                     conds = " ".join("/m - eq i:%d" % j for j in range(k))
+                elif rng.random() < 0.3:
+                    # threshold conditions (non-commutative operators): variable > 0 / variable < 2 alternating
+                    conds = " ".join("/c%d - %s" % (j, "gt i:0" if j % 2 == 0 else "lt i:1") for j in range(k))
                 else:
                     conds = " ".join("/c%d - eq i:1" % j for j in range(k))
                 subs = " ".join(spec_str(small_subtree(rng, 100 + 10 * j)) for j in range(k))
@@ -125,9 +128,10 @@ class C18(BtProp):
         if kind == "pickup":
             return self.pickup(sh, spec, obs)
         if kind == "oneshot":
-            if s.header[0].split()[5:7] == ["(", "Q"]:
-                return []     # the idiom extends a wrapped Sequence in place: no separate subtree root to witness
-            return self.oneshot_idiom(sh, spec, obs, s.header[0].split()[4] == "1")
+            # when the wrapped behaviour is itself a Sequence the idiom appends its flag setter to it in place: the
+            # witness of "the subtree was ticked / completed" is then that (extended) sequence itself
+            return self.oneshot_idiom(sh, spec, obs, s.header[0].split()[4] == "1",
+                                      in_place=s.header[0].split()[5:7] == ["(", "Q"])
         if kind == "oneshotdec":
             return self.oneshot_dec(sh, spec, obs)
         if kind == "eitheror":
@@ -205,11 +209,11 @@ class C18(BtProp):
                 break
         return out
 
-    def oneshot_idiom(self, sh, spec, obs, both):
+    def oneshot_idiom(self, sh, spec, obs, both, in_place=False):
         # root S -> [Q guard -> [inv(cex), body], cv]; the wrapped behaviour is the first child of the work sequence
         body = spec[3][0][3][1]
         work = body[3][0] if both else body
-        sub = work[3][0][1]
+        sub = work[1] if in_place else work[3][0][1]
         # when the wrapped behaviour is itself a Sequence the idiom appends to it: then the "subtree" is that sequence
         # minus the flag setter, which we cannot separate by id; use its first child as the tick witness
         return self.oneshot_generic(obs, spec[1], sub, both, "oneshot idiom")
